@@ -63,6 +63,14 @@ def oracle_c05(scn, run):
     if tids != list(range(len(tids))):
         dry_ok = any(scn["requests"][r["req"]].get("dry") and r["ok"] for r in run["responses"])
         v.append(({"class": "tx-ids", "after_preview": dry_ok}, "transaction ids in log order are %s" % tids))
+    # a graceful stop (Commander.Close) is the signal "this commander writes nothing more": it may only come back once the InsertLogs
+    # that was running when it was asked has returned (a commander initialised from the store at that moment would otherwise continue
+    # from the log BEFORE that batch)
+    cl = run.get("close")
+    if cl and cl.get("returned") == "while-insert-in-flight":
+        v.append(({"class": "close-returned-while-insert-in-flight"},
+                  "Commander.Close, called at step %s while a batch of %s entr%s was inside InsertLogs, returned before that call did" % (
+                      cl.get("step"), cl.get("batch_in_store"), "y" if cl.get("batch_in_store") == 1 else "ies")))
     return v
 
 
@@ -133,6 +141,28 @@ def oracle_c06(scn, run):
                 effects_min += 1
         else:
             effects_min += 1
+    # request by request, by WHO wrote (the scheduler's observation of the commander's last log after each turn): a success stands for
+    # exactly one entry written by that request — or, with an idempotency key, for the entry recorded under the key —; an error for none
+    by_hash = {t["committed"]["hash"]: t["a"] for t in run["trace"] if isinstance(t, dict) and "committed" in t and t["committed"].get("hash")}
+    wrote = collections.Counter(by_hash[l["hash"]] for l in d if l.get("hash") in by_hash)   # per persisted ENTRY (ids may repeat in a broken log)
+    for r in run["responses"]:
+        q = reqs[r["req"]]
+        if q.get("dry"):
+            continue
+        n_own = wrote.get(r["req"], 0)
+        what = q["kind"] + ("-empty" if q.get("empty") else "")
+        if r["ok"]:
+            recorded = bool(q.get("ik")) and any(l["ik"] == q["ik"] for l in d[:r["durable"]])
+            if n_own == 0 and not recorded:
+                v.append(({"class": "success-without-entry", "kind": what, "keyed": bool(q.get("ik"))},
+                          "request %d (%s%s) reported success; no persisted entry was written by it%s" % (
+                              r["req"], what, ", key %s" % show_key(q["ik"]) if q.get("ik") else "",
+                              " and none is recorded under its key" if q.get("ik") else "")))
+            elif n_own > 1:
+                v.append(({"class": "several-entries-for-one-success", "kind": what}, "request %d (%s) reported success; %d persisted entries were written by it" % (r["req"], what, n_own)))
+        elif n_own > 0:
+            v.append(({"class": "entry-after-error", "kind": what}, "request %d (%s) reported the error %r; %d persisted entr%s written by it" % (
+                r["req"], what, r["err"][:60], n_own, "y was" if n_own == 1 else "ies were")))
     produced = len(d) - nf
     maybe = len(run["crashed"])  # requests in flight at a crash may or may not have persisted
     n_ik_extra = sum(1 for r in run["responses"] if r["ok"] and not reqs[r["req"]].get("dry") and reqs[r["req"]].get("ik")) - len(seen_ik)
@@ -252,10 +282,30 @@ def expected_postings(q):
     return ps
 
 
+def locks_at_commit(run):
+    """hash of a committed entry -> (actor, read set, write set) the actor held when it committed it (None: it held no lock), read off
+    the trace: the lock / unlock entries of the locker the commander was given"""
+    held, out = {}, {}
+    for t in run["trace"]:
+        if not isinstance(t, dict):
+            continue
+        if "crash" in t:
+            held = {}
+        elif "lock" in t:
+            held[t["a"]] = (set(t["lock"]["r"]), set(t["lock"]["w"]))
+        elif t.get("unlock"):
+            held.pop(t["a"], None)
+        elif "committed" in t and t["committed"].get("hash"):
+            out[t["committed"]["hash"]] = (t["a"], held.get(t["a"]))
+    return out
+
+
 def oracle_c02(scn, run):
     v = []
     reqs = scn["requests"]
     R = collections.defaultdict(int)
+    prod = producers(run)
+    at_commit = locks_at_commit(run)
     for l in run["durable"]:
         if l["type"] not in ("NEW_TRANSACTION", "REVERTED_TRANSACTION"):
             continue
@@ -263,15 +313,33 @@ def oracle_c02(scn, run):
         grant = None
         via = "?"
         if not l["funding"]:
+            a = prod.get(l["id"])
+            by = reqs[a] if a is not None and 0 <= a < len(reqs) else None
             if l["type"] == "REVERTED_TRANSACTION":
                 cands = [q for q in reqs if q["kind"] == "revert" and str(q.get("target")) == l["reverted"]]
                 grant = None if any(q.get("force") for q in cands) else 0
                 via = "revert"
+                if by is not None and by["kind"] == "revert":     # the request that wrote it: what IT declared
+                    grant = None if by.get("force") else 0
             else:
                 cands = [q for q in reqs if q["kind"] == "create" and expected_postings(q) == [tuple(p[:3]) for p in ps]]
                 if cands:
                     grant = max((q.get("over") or 0) for q in cands)
                     via = "+".join(sorted({q["via"] for q in cands}))
+                if by is not None and by["kind"] == "create" and not by.get("sends"):
+                    # the request that WROTE the entry: what IT declared — also when the postings are not the ones its text spells
+                    # out (a source looked up from metadata that was rewritten meanwhile)
+                    grant = by.get("over") or 0
+                    via = by["via"] + ("" if any(q is by for q in cands) else "-switched")
+            # lock coverage, on the log: every account an entry takes funds from was write-locked by the request that committed it,
+            # at that moment (the lock the commander asked its locker for; world is never locked)
+            if l.get("hash") in at_commit:
+                a2, hl = at_commit[l["hash"]]
+                for src in sorted({p[0] for p in ps if p[0] != "world"}):
+                    if hl is None or src not in hl[1]:
+                        v.append(({"class": "source-not-write-locked", "via": via, "kind": "revert" if l["type"] == "REVERTED_TRANSACTION" else "create"},
+                                  "log %s, committed by request %s, takes funds from %s; the request held %s at that moment" % (
+                                      l["id"], a2, src, "no account lock" if hl is None else "write locks on %s only" % sorted(hl[1]))))
         for n, (src, dst, amt, asset) in enumerate(ps):
             amt = int(amt)
             if not l["funding"] and src != "world" and grant is not None and amt > 0 and R[(src, asset)] - amt < -grant:
@@ -420,7 +488,7 @@ def evaluate(ctx, prop, inputs, impl, nontrivial):
                     continue
             for sig, what in ORACLES[prop](scn, run):
                 one = dict(scn, plans=[plans[k]])
-                ctx.violation(dict(sig, property=prop), what, {"area": "engine", "input": one, "observed": {k2: run[k2] for k2 in ("durable", "responses", "events", "crashed")}})
+                ctx.violation(dict(sig, property=prop), what, {"area": "engine", "input": one, "observed": {k2: run[k2] for k2 in ("durable", "responses", "events", "crashed", "close") if k2 in run}})
             h = shash({"r": scn["requests"], "t": [t for t in run["trace"] if isinstance(t, dict) and "a" in t and "at" in t]})
             if h not in seen and nontrivial(scn, run):
                 nt += 1
@@ -473,7 +541,40 @@ def scenario_shapes(scn):
         out.add("chained transaction (world -> a n ; a -> b m, m < n)")
     if any(q.get("dry") and q["kind"] in ("setmeta", "delmeta") for q in reqs):
         out.add("preview of a metadata write" + (", twin run" if scn.get("twin") else ""))
+    if scn.get("series") == 3:
+        out.add("series 3: " + str(scn.get("name")))
     return out
+
+
+def segments(run):
+    """per request, where in the trace things happened: index of its resumption from each yield point (`at`), of its commit, of
+    the store answer that made its entry durable (`persisted`), of its answer (`finish`); plus the indices of the restarts"""
+    seg, pend, restarts = collections.defaultdict(dict), [], []
+    for i, t in enumerate(run["trace"]):
+        if not isinstance(t, dict):
+            continue
+        if "crash" in t:
+            pend = []
+            restarts.append(i)
+        elif t.get("a") == -1 and t.get("at") == "gate":
+            if t.get("ok", True):
+                for a in pend[:t.get("batch", 1)]:
+                    seg[a].setdefault("persisted", i)
+            pend = pend[t.get("batch", 1):]
+        elif "a" in t and t["a"] >= 0:
+            a = t["a"]
+            if "at" in t:
+                seg[a].setdefault("at:" + t["at"], i)
+            elif "committed" in t:
+                seg[a].setdefault("commit", i)
+                pend.append(a)
+            elif t.get("finish"):
+                seg[a]["finish"] = i
+            elif "lock" in t:
+                seg[a].setdefault("lock", i)
+        elif "cancel" in t:
+            seg[t["cancel"]]["cancelled"] = i
+    return seg, restarts
 
 
 def history_shapes(scn, run):
@@ -521,6 +622,50 @@ def history_shapes(scn, run):
         if q.get("dry") and q["kind"] in ("setmeta", "delmeta") and r["ok"]:
             later_real = any(not reqs[x["req"]].get("dry") and x["ok"] and x["durable"] > r["durable"] for x in run["responses"])
             out.add("preview of a metadata write (%s target)%s" % ("account" if q.get("acct") else "transaction", ", real writes after it" if later_real else ""))
+    # ---- situations of the third series (overlaps), decided on the trace
+    seg, restarts = segments(run)
+    inf = 1 << 30
+    res_of = {r["req"]: ("accepted" if r["ok"] else r["err"].split(":")[0]) for r in run["responses"]}
+    for b, q in enumerate(reqs):
+        # (1) a source looked up from metadata, and a write of that registry entry persisted between the request's resolution
+        # (resumed from "resolve") and its execution (resumed from "read-balances")
+        if q["kind"] == "create" and q.get("via") in ("meta", "aliasmeta") and "at:resolve" in seg[b] and "at:read-balances" in seg[b]:
+            for m, qm in enumerate(reqs):
+                if qm["kind"] == "setmeta" and qm.get("acct") == "registry" and qm.get("key") == q["src"] and qm.get("val") != q["src"] and \
+                        seg[b]["at:resolve"] < seg[m].get("persisted", inf) < seg[b]["at:read-balances"]:
+                    racing = any(qa["kind"] == "create" and qa.get("src") == qm["val"] and a != b and
+                                 seg[a].get("at:read-balances", inf) < seg[b].get("persisted", inf) and seg[b]["at:read-balances"] < seg[a].get("persisted", inf)
+                                 for a, qa in enumerate(reqs))
+                    out.add("payer switched (registry entry rewritten and persisted) between a request's resolution and its execution%s: %s" % (
+                        ", another request spending from the new payer in flight" if racing else "", res_of.get(b, "never answered")))
+        # (2) a forced revert in flight (balances read .. entry persisted) at the same time as a payment from an account it debits
+        if q["kind"] == "revert" and not q.get("dry") and "at:read-balances" in seg[b]:
+            orig = by_id.get(str(q["target"]))
+            debits = {p[1] for p in orig["tx"]["postings"]} - {"world"} if orig else set()
+            for a, qa in enumerate(reqs):
+                if a != b and qa["kind"] == "create" and not qa.get("dry") and qa.get("src") in debits and qa.get("via") in ("lit", "var", "meta") and \
+                        "at:lock" in seg[a] and seg[a]["at:lock"] < seg[b].get("persisted", seg[b].get("finish", inf)) and \
+                        seg[b]["at:read-balances"] < seg[a].get("persisted", seg[a].get("finish", inf)):
+                    out.add("%s revert in flight together with a payment from the account it debits: payment %s, revert %s" % (
+                        "forced" if q.get("force") else "unforced", res_of.get(a, "never answered"), res_of.get(b, "never answered")))
+        # (3) set-metadata with an empty map
+        if q["kind"] == "setmeta" and q.get("empty") and not q.get("dry") and b in res_of:
+            tgt = "account" if q.get("acct") else ("existing transaction" if str(q.get("target")) in by_id else "missing transaction")
+            resp = next(r for r in run["responses"] if r["req"] == b)
+            retry = bool(q.get("ik")) and any(l["ik"] == q["ik"] and producers_cached(run).get(l["id"]) != b for l in d[:resp["durable"]])
+            out.add("set-metadata with an EMPTY map, %s, %s: %s" % (tgt, "retry of a recorded key" if retry else "keyed" if q.get("ik") else "no key", res_of[b]))
+        # (4) a revert whose caller went away while it waited for the store; another revert started before its entry was persisted
+        if q["kind"] == "revert" and "cancelled" in seg[b] and "commit" in seg[b]:
+            for a, qa in enumerate(reqs):
+                if a != b and qa["kind"] == "revert" and seg[b]["cancelled"] < seg[a].get("at:revert-take", inf) < seg[b].get("persisted", inf):
+                    out.add("revert cancelled while waiting for the store, then a revert of %s transaction before its entry is persisted: %s" % (
+                        "the SAME" if qa.get("target") == q.get("target") else "ANOTHER", res_of.get(a, "never answered")))
+    # (5) graceful stop + reopen while a batch was inside InsertLogs
+    cl = run.get("close")
+    if cl:
+        later = sum(1 for r in run["responses"] if r["ok"] and reqs[r["req"]].get("phase", 0) > cl.get("phase", 0))
+        out.add("graceful stop (Close) while a batch of %s was inside InsertLogs — Close returned %s; %s" % (
+            "1" if cl.get("batch_in_store") == 1 else ">= 2", cl.get("returned"), "writes accepted after the reopen" if later else "no write after the reopen"))
     # events leaving the commander out of transaction-id order (two writers woken in the other order)
     ids = [int(e["tx"]["id"]) for e in run["events"] if e["type"] == "committed" and e.get("tx") and e["tx"]["id"].isdigit()]
     if any(b < a for a, b in zip(ids, ids[1:])):
@@ -702,7 +847,11 @@ def run_check(ctx, prop, components, nontrivial, rule, quick_n=120, thorough_n=1
                        "set/delete metadata; previews; shared idempotency keys (up to 300 bytes) and references; sequential phases and concurrent bursts) + half as many "
                        "multi-step histories around one entry (reference resubmitted after the revert of its holder; second revert under a fresh key; one key on a real "
                        "write and a preview; metadata previews with a twin run; chained transaction spent from, then reverted unforced / forced; write - retry - "
-                       "restart - retry under a long key) x seeded random schedules "
+                       "restart - retry under a long key) + a third as many overlap situations, each with seeded random AND directed schedules (payer looked up "
+                       "from metadata rewritten while the request is on its way, a third request spending from the new payer; forced revert racing a payment "
+                       "from the account it debits; set-metadata with an empty map with / without key and its retry; revert cancelled while waiting for the "
+                       "store, then another revert of the same account / the same transaction; graceful Close while a batch is inside InsertLogs, reopen, "
+                       "further writes) x seeded random schedules "
                        "over every yield point, persistence latency as a scheduling choice, a crash or a store failure in part of the schedules; non-trivial = %s") % (
                            4 if ctx.quick else 6, rule)
     s0 = inputs[0]
